@@ -25,7 +25,7 @@ func init() {
 		Rule: "one run = 2-4 real brokers on the simulated mesh (full mesh or line), 1-2 clients per broker; tape-generated subscribe / unsubscribe / abrupt disconnect + reconnect bursts on channels {a/, b/, a/b/, b/a/}; every transport event (which link sender runs, which in-flight message is delivered, GC notifications), every clock advance (us..31 s: peer send queues, emitter's 5 s update, periodic full-state gossip) and, by campaign (A schedules only, B + link down / partition / heal, C + broker crash and restart on a crash image, clean stop and restart, D schedules + two gossip messages delivered to one broker by two goroutines interleaved at the yield points of Swarm.merge) every fault is a tape decision. At quiescence (faults stopped, links healed by emitter's own Join loop, 150 simulated seconds): no Gossiper callback panicked; every broker's trie holds the remote entry (filter, peer P) iff P has a live local subscriber with that filter; one probe publish per (broker, channel) reaches every matching subscriber on every broker exactly once and nobody else. non-trivial = >= 1 remote route expected at quiescence; distinct = distinct canonical logs",
 		Real:  []string{"broker.Service x N", "cluster.Swarm (Notify, merge, onPeerOnline/Offline, update, Join)", "cluster.Peer (counters, send queue)", "event.State / crdt (durable)", "pubsub, message.Trie", "Service.onPeerMessage"},
 		Stub:  []string{"weaveworks/mesh (simmesh transcription: per-link senders, broadcast tree, relays, periodic gossip, full state on link-up, GC)", "client sockets (simnet)", "clock (synctest)"},
-		Assumptions: []string{"Gossiper callbacks run one at a time (the real mesh runs one receive loop per link)", "topology knowledge in the mesh is immediate (its own topology gossip is not simulated)", "a live mesh link is a TCP stream: FIFO, lossless; loss only when a link or node goes down", "a broker's own clock strictly increases between two client operations (no timestamp ties inside one broker; ties and skew between replicas are explored by C04/C13)"},
+		Assumptions: []string{"Gossiper callbacks run one at a time (the real mesh runs one receive loop per link)", "topology knowledge in the mesh is immediate (its own topology gossip is not simulated)", "a live mesh link is a TCP stream: FIFO, lossless; loss only when a link or node goes down", "a broker's own clock strictly increases between two client operations (no timestamp ties inside one broker; ties and skew between replicas are explored by C04/C13)", "brokers' clocks are synchronised and every transport event (delivery, connect, link down, partition, kill) happens at least 1 us after its cause"},
 	})
 }
 
@@ -263,6 +263,7 @@ func (w *c05World) concurrentDeliver(baton *kernel.Baton) {
 		j++
 	}
 	c.Logf("net concurrent deliver %s and %s", evs[i], evs[j])
+	cl.Latency()
 	c.Fault("concurrent-merge")
 	baton.SetActive(true)
 	done := make(chan struct{}, 2)
@@ -309,11 +310,13 @@ func (w *c05World) fault(campaign string, line bool) {
 	a, b := t.Choose(n), t.Choose(n)
 	switch k := t.Choose(10); {
 	case k < 4 && a != b:
+		cl.Latency()
 		if cl.Net.Disconnect(cl.Name(a), cl.Name(b)) {
 			c.Fault("link-down")
 			c.Logf("fault link down b%d-b%d", a, b)
 		}
 	case k < 6 && a != b:
+		cl.Latency()
 		cl.Net.Block(cl.Name(a), cl.Name(b), true)
 		c.Fault("partition")
 		c.Logf("fault partition b%d|b%d", a, b)
